@@ -1,22 +1,16 @@
 use std::str::FromStr;
-use miniscript::{Descriptor, DescriptorPublicKey};
+use miniscript::{Descriptor, DefiniteDescriptorKey, Interpreter};
+use bitcoin::{Witness, ScriptBuf, Sequence, absolute};
 fn main() {
     let a = "02e493dbf1c10d80f3581e4904930b1404cc6c13900ee0758474fa94abe8c4cd13";
-    let b = "03a34b99f22c790c4e36b2b3c2c35a36db06226e41c692fc82b8b56ac1c540c5bd";
-    for s in [
-        format!("wsh(or_d(pk({a}),older(5)))"),
-        format!("wsh(or_b(pk({a}),a:pk({a})))"),
-        format!("wsh(and_v(v:pk({a}),or_d(pk({b}),older(5))))"),
-        format!("wsh(or_i(pk({a}),pk({b})))"),
-        format!("wsh(andor(pk({a}),older(5),after(100)))"),
-        format!("sh(or_i(pk({a}),pk({b})))"),
-        format!("tr({a},or_d(pk({b}),older(5)))"),
-        format!("{}", "pk(02e493dbf1c10d80f3581e4904930b1404cc6c13900ee0758474fa94abe8c4cd13)"),
-        format!("wsh(thresh(2,pk({a}),s:pk({b}),sdv:older(5)))"),
-    ] {
-        match Descriptor::<DescriptorPublicKey>::from_str(&s) {
-            Ok(d) => println!("OK   {} -> {}", s, d),
-            Err(e) => println!("ERR  {} -> {}", s, e),
-        }
-    }
+    let d = Descriptor::<DefiniteDescriptorKey>::from_str(&format!("wsh(pkh({a}))")).unwrap();
+    let spk = d.script_pubkey();
+    let script = d.explicit_script().unwrap();
+    let pk = bitcoin::PublicKey::from_str(a).unwrap();
+    let sig = vec![0x30,0x06,0x02,0x01,0x01,0x02,0x01,0x01,0x01];
+    let w = Witness::from_slice(&[sig, pk.to_bytes(), script.to_bytes()]);
+    let ss = ScriptBuf::new();
+    let i = Interpreter::from_txdata(&spk, &ss, &w, Sequence::MAX, absolute::LockTime::ZERO).unwrap();
+    println!("{}", i.inferred_descriptor_string());
+    match i.inferred_descriptor() { Ok(d2) => println!("{} {}", d2, d2.script_pubkey() == spk), Err(e) => println!("err {}", e) }
 }
